@@ -44,6 +44,8 @@ pub struct Env {
     pub live: BTreeSet<u32>,
     pub drops: Vec<u32>,
     pub clones: Vec<(u32, u32)>,
+    /// ids created inside the current window
+    pub created: Vec<u32>,
     pub errors: Vec<String>,
     // allocator ledger
     pub blocks: BTreeMap<usize, (usize, usize)>, // user ptr -> (size, align)
@@ -86,6 +88,9 @@ pub fn new_id() -> u32 {
         let id = e.next_id;
         e.next_id += 1;
         e.live.insert(id);
+        if e.in_call {
+            e.created.push(id);
+        }
         id
     })
 }
@@ -129,6 +134,7 @@ pub fn begin_window() {
         e.alloc_calls = 0;
         e.drops.clear();
         e.clones.clear();
+        e.created.clear();
         e.alloc_events.clear();
         e.hash_log.clear();
         e.eq_log.clear();
